@@ -95,6 +95,7 @@ end
 /-- what the sites know about the position: `q = p + cur` with `avail` bytes left (at most `OPTS - 1 - cur`) -/
 structure PosOk (P : NormalParams) (d : Array UInt8) (p avail0 cur : Nat) (nice : Nat) : Prop where
   pok : P.ok
+  nice2 : 2 ≤ nice
   nice273 : nice ≤ 273
   av0 : avail0 ≤ d.size - p
   av1 : avail0 < P.opts
@@ -106,7 +107,7 @@ theorem calc1BytePrices_inv {P : NormalParams} {d : Array UInt8} {dict p : Nat} 
     (hcur : 1 ≤ cur) (anyRep : Nat) :
     Inv P d dict p c0 avail0 cur (cur + 1) (calc1BytePrices E a cur (p + cur) (avail0 - cur) anyRep) ∧
       a.optEnd ≤ (calc1BytePrices E a cur (p + cur) (avail0 - cur) anyRep).optEnd := by
-  obtain ⟨⟨hmin, hmax, hreps, hopts2, hinf⟩, hn273, hav0, hav1, hclt⟩ := hpos
+  obtain ⟨⟨hmin, hmax, hreps, hopts2, hinf⟩, hn2, hn273, hav0, hav1, hclt⟩ := hpos
   subst hEP hEd
   have hq : p + cur < E.d.size := by omega
   unfold calc1BytePrices
@@ -201,5 +202,112 @@ theorem calc1BytePrices_inv {P : NormalParams} {d : Array UInt8} {dict p : Nat} 
         exact heq
     · exact ⟨hi2', by omega⟩
   · exact ⟨hi2', by omega⟩
+
+/-! ### threading: the invariant together with the coder state of `opts[cur]` and a lower bound of `opt_end` -/
+
+/-- `Inv` + the coder state of `opts[cur]` is `cc` + `opt_end ≥ lo` -/
+def Thr (P : NormalParams) (d : Array UInt8) (dict p : Nat) (c0 : Coder) (avail0 cur b : Nat) (cc : Coder) (lo : Nat)
+    (a : OA) : Prop :=
+  Inv P d dict p c0 avail0 cur b a ∧ (oat a.opts cur).c = cc ∧ lo ≤ a.optEnd ∧ cur ≤ a.optEnd ∧ b ≤ a.optEnd
+
+theorem oat_modify_ne (opts : Opts) (i j : Nat) (f : Opt → Opt) (h : i ≠ j) : oat (opts.modify i f) j = oat opts j := by
+  unfold oat
+  rw [Array.getD_eq_getD_getElem?, Array.getD_eq_getD_getElem?, Array.getElem?_modify, if_neg h]
+
+section
+variable {P : NormalParams} {d : Array UInt8} {dict p : Nat} {c0 : Coder} {avail0 cur b : Nat} {cc : Coder} {lo : Nat}
+  {a : OA}
+
+theorem Thr.extend (h : Thr P d dict p c0 avail0 cur b cc lo a) (hav : avail0 < P.opts) (t : Nat) (ht : t ≤ avail0) :
+    Thr P d dict p c0 avail0 cur b cc (max lo t) (a.extend P t) := by
+  obtain ⟨hi, hc, hl, hcu, hb⟩ := h
+  obtain ⟨h1, h2, h3⟩ := hi.extend hav hcu hb t ht
+  refine ⟨h1, ?_, by omega, by omega, by omega⟩
+  rw [← hc]
+  unfold OA.extend
+  split
+  · simp only
+    rw [oat_resetFrom P _ _ _ cur (by rw [hi.size]; have := hi.endLe; omega), if_neg (by omega)]
+  · rfl
+
+theorem Thr.offer (h : Thr P d dict p c0 avail0 cur b cc lo a) (hav : avail0 < P.opts) (t price : Nat) (f : Opt → Opt)
+    (ht : cur < t) (hte : t ≤ a.optEnd) (hf : ∀ o, (f o).price = price)
+    (hcand : ∀ o : Opts, (oat o cur).c = cc → oat o t = f (oat a.opts t) → CandOk P d dict p o cur t) :
+    Thr P d dict p c0 avail0 cur b cc lo (a.offer t price f) := by
+  obtain ⟨hi, hc, hl, hcu, hb⟩ := h
+  obtain ⟨h1, h2, _⟩ := hi.offer hav t price f ht hte hf
+    (fun o hlow ho => hcand o (by rw [hlow cur (Nat.le_refl _)]; exact hc) ho)
+  refine ⟨h1, ?_, by omega, by omega, by omega⟩
+  rw [← hc]
+  unfold OA.offer
+  split
+  · simp only; rw [oat_modify_ne _ _ _ _ (by omega)]
+  · rfl
+
+end
+
+/-! ### `X + literal + rep0` -/
+
+theorem offerComposite_thr {P : NormalParams} {d : Array UInt8} {dict p : Nat} {c0 : Coder} {avail0 cur b : Nat}
+    {cc : Coder} {lo : Nat} {a : OA}
+    (E : Env) (hEP : E.P = P) (hEd : E.d = d) (hpos : PosOk P d p avail0 cur E.nice)
+    (h : Thr P d dict p c0 avail0 cur b cc lo a)
+    (len dist price0 stateX : Nat) (back2 : Int) (hb2 : 0 ≤ back2) (hl2 : 2 ≤ len) (hla : len ≤ avail0 - cur)
+    (hX : ChainOk d dict [(symOf P d (p + cur) back2 len, len)] (p + cur) cc)
+    (hd : (cc.apply (symOf P d (p + cur) back2 len)).rep0 = dist) :
+    Thr P d dict p c0 avail0 cur b cc lo (offerComposite E a cur (p + cur) (avail0 - cur) len dist price0 stateX back2) := by
+  obtain ⟨⟨hmin, hmax, hreps, hopts2, hinf⟩, hn2, hn273, hav0, hav1, hclt⟩ := hpos
+  subst hEP hEd
+  unfold offerComposite
+  simp only [hmin]
+  split
+  · next hlen2 =>
+    generalize hL : getMatchLen2 E.d (p + cur) (len + 1) dist (min E.nice (avail0 - cur - len - 1)) = len2 at hlen2 ⊢
+    have hspec := getMatchLen2_spec E.d (p + cur) (len + 1) dist (min E.nice (avail0 - cur - len - 1))
+    rw [hL] at hspec
+    obtain ⟨hlim, heq⟩ := hspec
+    generalize price0 + litPrice _ _ _ _ _ _ _ + longRepAndLenPrice _ _ _ _ _ _ = price3
+    have h1 := h.extend hav1 (cur + len + 1 + len2) (by omega)
+    have h2 := h1.offer hav1 (cur + len + 1 + len2) price3 (fun o => o.set3 price3 cur back2 len 0) (by omega)
+      (by have := h1.2.2.1; omega) (fun o => rfl) ?_
+    · exact ⟨h2.1, h2.2.1, by have := h2.2.2.1; omega, h2.2.2.2⟩
+    · intro o hoc ho
+      refine candOk_set3 o (cur + len + 1 + len2) price3 len back2 _ ho hb2 hl2 (by omega) ?_
+      have e1 : cur + len + 1 + len2 - (cur + len + 1) = len2 := by omega
+      rw [e1, symOf_rep0 E.P hreps E.d _ len2 hlen2, hoc]
+      have e2 : p + (cur + len) = p + cur + len := by omega
+      rw [e2]
+      refine cand_composite E.d dict (p + cur) cc _ len dist len2 len2 hX hd hlen2 (Nat.le_refl _) (by omega) (by omega) heq
+  · exact h
+
+/-! ### long reps of all lengths -/
+
+theorem offerRepLens_thr {P : NormalParams} {d : Array UInt8} {dict p : Nat} {c0 : Coder} {avail0 cur b : Nat}
+    {cc : Coder} {lo : Nat}
+    (E : Env) (hEP : E.P = P) (hEd : E.d = d) (hpos : PosOk P d p avail0 cur E.nice)
+    (posState longRep rep Lm : Nat) (hr : rep ≤ 3) (hLm : Lm ≤ min (d.size - (p + cur)) 273)
+    (he : Eqs d (p + cur) (cc.rep rep + 1) Lm) :
+    ∀ (n : Nat) (a : OA), Thr P d dict p c0 avail0 cur b cc lo a → n + 1 ≤ Lm → cur + n + 1 ≤ a.optEnd →
+      Thr P d dict p c0 avail0 cur b cc lo (offerRepLens E cur posState longRep (rep : Int) n a)
+  | 0, a, h, _, _ => by simpa only [offerRepLens] using h
+  | n + 1, a, h, hn, hne => by
+    obtain ⟨⟨hmin, hmax, hreps, hopts2, hinf⟩, hn2, hn273, hav0, hav1, hclt⟩ := hpos
+    subst hEP hEd
+    rw [offerRepLens]
+    simp only [hmin]
+    generalize longRep + E.pt.repLen.get (n + 2) posState = price
+    have h1 := h.offer hav1 (cur + (n + 2)) price (fun o => o.set1 price cur (rep : Int)) (by omega) (by omega)
+      (fun o => rfl) ?_
+    · refine offerRepLens_thr E rfl rfl ⟨⟨hmin, hmax, hreps, hopts2, hinf⟩, hn2, hn273, hav0, hav1, hclt⟩
+        posState longRep rep Lm hr hLm he n _ h1 (by omega) ?_
+      unfold OA.offer
+      split
+      · show cur + n + 1 ≤ a.optEnd; omega
+      · omega
+    · intro o hoc ho
+      refine candOk_set1 o (cur + (n + 2)) price (rep : Int) _ ho (by omega) (Or.inr ⟨by omega, by omega⟩) ?_
+      have e1 : cur + (n + 2) - cur = n + 2 := by omega
+      rw [e1, symOf_rep E.P hreps E.d _ rep (n + 2) (by omega) (by omega), hoc]
+      exact cand_rep E.d dict (p + cur) cc rep (n + 2) Lm hr (by omega) (by omega) hLm he
 
 end LzmaVerif.EncNormal
